@@ -106,8 +106,8 @@ MALFORMED_CHARS = ["", " ", "  ", "ab", "'ab'", "'a", "a'", "((", "1 2", "1,", "
                    "'\\x4'", "'\\q'", "'\\101'", "'\\0'", "'''a'''", "''", "\"\"", "01", "00", "0_9", "1_0", "'…'", "#", "a#", "\\", "'\\'", " 9", "9 ", " tab", "\t,", "0b1001", "0o11", "é", "ab c"]
 OTHER_VALUES = {
     "encoding": ["utf-8", "UTF-8", "latin-1", "cp1252", "ascii", "iso-8859-15", "nope", "", "utf 8", "utf_8", "a\x00b", "idna", "rot13", "hex", "base64", "zlib", "undefined", "utf-16", "punycode", "unicode_escape"],
-    "header": ["0", "1", "17", " 3 ", "+2", "-1", "-0", "1.0", "x", "", "1_0", "0x1", "١", "1e2", " ", "00", "007"],
-    "sheet": ["0", "1", "2", " 3 ", "+2", "-1", "x", "", "1.0", "1_0", "00", "01"],
+    "header": ["0", "1", "17", " 3 ", "+2", "-1", "-0", "1.0", "x", "", "1_0", "0x1", "١", "1e2", " ", "00", "007", "10", "10.0", "10.", "300.00", "100", "1.5"],
+    "sheet": ["0", "1", "2", " 3 ", "+2", "-1", "x", "", "1.0", "1_0", "00", "01", "10", "20.0", "10.", "100"],
     "quoting": ["all", "ALL", "All", "minimal", "Minimal", "none", "", " all", "nonnumeric"],
     "skip initial space": ["true", "True", "TRUE", "false", "False", "yes", "1", "", " true"],
     "line delimiter": ["any", "ANY", "lf", "LF", "cr", "Cr", "crlf", "CRLF", "none", "None", "", "\\n", "lfcr", " lf"],
